@@ -190,14 +190,33 @@ def frame(ctx, cname):
                 break
         okr = rets[0].seq > post[0].seq
     ctx.ob("MC", site, "the (modified) copy is returned through _postprocess on the only return path", okr, "")
-    muts = [e for e in tr.of("localmut") if e.how == "setitem" and isinstance(e.d.get("old"), T.R) and copy_root(e.old) and len(e.stack) == 1]
+    def _via_view(e):
+        """a store through a basic row slice of the copy (rows = ret[a:b]; rows[:, c] = v): the slice is a view, the store lands in ret[a:b, c]"""
+        o = q.unmut(e.old).single_atom() if isinstance(e.d.get("old"), T.R) else None
+        if o is None or o[0] != "sub" or not copy_root(o[1]):
+            return None
+        sl = o[2].single_atom()
+        if sl is None or sl[0] != "slice":
+            return None
+        idx = e.path[0][1] if e.path else None
+        ia = idx.single_atom() if idx is not None else None
+        full = lambda t: (t.single_atom() or ("",))[0] == "slice" and all(x == T.NONE for x in t.single_atom()[1:])
+        if ia is not None and ia[0] == "tuple" and len(ia[1]) == 2 and full(ia[1][0]):
+            return o[2], ia[1][1]
+        if idx is not None and full(idx):
+            return o[2], None
+        return None
+    muts = [e for e in tr.of("localmut") if e.how == "setitem" and isinstance(e.d.get("old"), T.R) and (copy_root(e.old) or _via_view(e) is not None) and len(e.stack) == 1]
     ctx.ob("ROLE", site, "the copy is modified in place", len(muts) >= 1, "")
     cols = _target_cols(tr, cname)
     for e in muts:
         idx = e.path[0][1] if e.path else None
         ia = idx.single_atom() if idx is not None else None
         rows = colsel = None
-        if ia is not None and ia[0] == "tuple" and len(ia[1]) == 2:
+        vv = _via_view(e) if not copy_root(e.old) else None
+        if vv is not None:
+            rows, colsel = vv
+        elif ia is not None and ia[0] == "tuple" and len(ia[1]) == 2:
             rows, colsel = ia[1]
         else:
             rows = idx
@@ -246,6 +265,8 @@ def effects(ctx):
     c1, c2 = col_term(tr, "col_1"), col_term(tr, "col_2")
     mu = [e for e in tr.of("localmut") if e.how == "setitem" and len(e.stack) == 1 and isinstance(e.d.get("old"), T.R) and copy_root(e.old)]
     ok = len(mu) == 1
+    if not ctx.anchor(site, "the swap is one store into the copy itself", bool(mu), "the columns are written through another object (a view)"):
+        ok = None
     if ok:
         idx = mu[0].path[0][1].single_atom()
         src = mu[0].value.single_atom()
@@ -254,7 +275,8 @@ def effects(ctx):
             sidx = src[2].single_atom()
             ok = sidx is not None and sidx[0] == "tuple" and sidx[1][0] == WIN and idx[1][0] == WIN and \
                 idx[1][1] == atom(("list", (c1, c2))) and sidx[1][1] == atom(("list", (c2, c1)))
-    ctx.ob("FRM", site, "columns [c1, c2] of the window receive columns [c2, c1] of the window (an involution)", ok, "", mu[0] if mu else None)
+    if ok is not None:
+        ctx.ob("FRM", site, "columns [c1, c2] of the window receive columns [c2, c1] of the window (an involution)", ok, "", mu[0] if mu else None)
     # --- LabelSwap
     site = "LabelSwapInjector.__call__"
     tr = ctx.trace("LabelSwapInjector", "__call__")
@@ -311,8 +333,10 @@ def effects(ctx):
         if lvs:
             wname = lvs[0][2][1:]
     init = [e for e in tw.of("local") if e.name == wname and not e.aug]
+    walk_loop = ctx.anchor(site, "the walk is an array filled step by step in a loop", wname is not None, q.short(tw.retval, 100) if tw.retval is not None else "")
     ok = len(init) == 1 and T.same(init[0].value, atom(("call", "numpy.ones", (P("steps"),), ())) * P("x0"))
-    ctx.ob("FRM", site, "the walk starts at x0", ok, q.short(init[0].value, 80) if init else "")
+    if walk_loop:
+        ctx.ob("FRM", site, "the walk starts at x0", ok, q.short(init[0].value, 80) if init else "")
     st = [e for e in tw.of("localmut") if e.name == wname and e.how == "setitem"]
     ok = len(st) == 1
     if ok:
